@@ -304,6 +304,25 @@ theorem scanGarbage_finds (term inp : List UInt8) (g : Nat)
       rw [if_neg hf, if_neg (by omega)]
       exact scanGarbage_finds term inp g hat hno hlen fuel (i + 1) (by omega) (by omega)
 
+/-! ### the length cipher on chunks of any size -/
+
+/-- FSChaCha20.Crypt over a list of chunks: outputs and final state -/
+def fscAll (P : Prims) : FSC → List (List UInt8) → List (List UInt8) × FSC
+  | s, [] => ([], s)
+  | s, c :: cs =>
+    let r := fscCrypt P s c
+    let rs := fscAll P r.2 cs
+    (r.1 :: rs.1, rs.2)
+
+theorem fscAll_invol (P : Prims) : ∀ (cs : List (List UInt8)) (s : FSC),
+    fscAll P s (fscAll P s cs).1 = (cs, (fscAll P s cs).2)
+  | [], s => rfl
+  | c :: cs, s => by
+    simp only [fscAll]
+    rw [fscCrypt_invol]
+    simp only []
+    rw [fscAll_invol P cs (fscCrypt P s c).2]
+
 /-! ### the handshake after key agreement -/
 
 /-- the packets CompleteHandshake sends after the terminator: decoys (zero contents, ignore bit),
